@@ -119,6 +119,19 @@ def run(pid, tier, replay=None):
             chk.case((name, json.dumps(hh)), nontrivial=sum(1 for s in hh if s["op"] != "buffer") >= 2)
         chk.sample({"universe": name, "behaviour": info[tid][1]})
 
+    # the buffer's lock with two writers (network thread + miner): design level, and the tempting "release the lock during disk I/O"
+    # refactoring as the necessity run
+    lc = {"Writers": {1, 2}, "Blocks": {1, 2, 3}, "LockScope": "whole", "MaxFlushes": 3}
+    rl = tracecheck.model("StoreLock", "Spec", lc, workers=4, timeout=600, invariants=["I_NoBlockLost", "I_FlushedMeansStored", "I_LockDiscipline"])
+    tlc.require_clean(rl, "StoreLock")
+    chk.add_tlc("StoreLock (2 writers, 3 blocks, <= 3 flushes, every interleaving of add / acquire / write / clear / release)", rl, constants=str(lc))
+    if rl.violated:
+        return machinery_failure(pid, "StoreLock violates %s" % rl.violated)
+    rln = tracecheck.model("StoreLock", "Spec", dict(lc, LockScope="copy"), workers=4, timeout=600, invariants=["I_NoBlockLost"])
+    chk.add_tlc("StoreLock necessity run: lock released during the disk write (must lose a block)", rln, expect_violation="I_NoBlockLost")
+    if not rln.violated:
+        return machinery_failure(pid, "vacuity: StoreLock with LockScope=copy does not lose a block")
+    lock_traces = []
     # randomized trees (not from the model), random batching, some forks re-mining the same pending transactions
     from checks.ledger import RandomTree
     n = 12 if quick else 150
@@ -148,6 +161,8 @@ def run(pid, tier, replay=None):
             run_.flush()
             info.setdefault("concurrent_hand_overs", 0)
             info["concurrent_hand_overs"] += nconc
+            for lt in getattr(run_, "lock_traces", []):
+                lock_traces.append(dict(lt, id=len(lock_traces) + 1))
             tid += 1
             traces.append(run_.trace(tid))
             info[tid] = ("random_tree", "%d blocks" % len(order))
@@ -156,6 +171,16 @@ def run(pid, tier, replay=None):
             run_.close()
 
     chk.extra["concurrent_hand_overs_during_a_flush"] = info.pop("concurrent_hand_overs", 0)
+    if lock_traces:
+        vl, rlt = tracecheck.run("TraceStoreLock", lock_traces, {"Writers": {1, 2}, "Blocks": set(), "LockScope": "whole", "MaxFlushes": 99},
+                                 ids=[t["id"] for t in lock_traces], workers=1, timeout=600)
+        chk.states += rlt.distinct
+        chk.traces_validated += len(lock_traces)
+        for t_id, (clause, line) in vl.items():
+            if clause != "ok":
+                chk.violation(clause, {"two_writer_schedule": lock_traces[t_id - 1]}, {"clause": clause})
+        for dft in tlc.tagged(rlt, "DRIFT"):
+            chk.model_drift("two-writer schedule %s step %s: %s" % tuple(dft[:3]))
     ids = [t["id"] for t in traces]
     verdicts, r2 = tracecheck.run("TraceStore", traces, {}, ids=ids, workers=4, timeout=3000)
     chk.states += r2.distinct
